@@ -175,6 +175,35 @@ end LibComp;
 """},
         "lib": {},
     },
+    "TwoLibs": {
+        # the library is spread over two library folders: the package's own file in one, a class declared `within` it in
+        # the other
+        "model": {"TwoLibs.mo": """model TwoLibs
+  Plant.Pump p(g = {a});
+  Plant.Tnk t;
+  Real y;
+{EXTRA_DECL}equation
+  y = p.out + t.h * {b} + Plant.c0;
+{EXTRA_EQ}end TwoLibs;
+"""},
+        "lib": {"Plant.mo": """package Plant
+  constant Real c0 = {c};
+  model Tnk
+    Real h(start = {a});
+  equation
+    der(h) = -{b} * h;
+  end Tnk;
+end Plant;
+"""},
+        "lib2": {"Pump.mo": """within Plant;
+model Pump
+  parameter Real g = 1;
+  Real out(start = {a});
+equation
+  der(out) = -g * out * {b};
+end Pump;
+"""},
+    },
     "NeedsAdd": {
         "model": {"NeedsAdd.mo": """model NeedsAdd
   Added m(g = {a});
